@@ -322,6 +322,41 @@ def r_dedup(ctx, model):
                               "is computed with another axis's strain fraction (which one depends on the request order)", key=f"dedup.{label[:22]}")
 
 
+def r_degenerate(ctx, model):
+    """two equal axial strain fractions: a rotated-frame dependency of a shear task and a requested plain component become ONE task (de-duplication);
+    small requests in which the shear key comes first must still put every dependency in front of its dependants and give every key its reference value"""
+    w = model.where(f"{TASKLIST}.resolve")
+    a, b = sp.Symbol("ea", positive=True), sp.Symbol("eb", positive=True)
+    fields = {"e2 = e3": (a, b, b), "e1 = e2": (a, a, b), "e1 = e3": (a, b, a)}
+    requests = [["c45", "c22"], ["c22", "c45"], ["c44", "c33"], ["c46", "c11"], ["c56", "c33", "c11"], ["c66", "c22", "c11"], ["c55", "c13"]]
+    if ctx.tier != "thorough":
+        fields = {"e2 = e3": fields["e2 = e3"], "e1 = e2": fields["e1 = e2"]}
+        requests = [requests[0], requests[2], requests[5]]
+    n = 0
+    for fname, triple in fields.items():
+        st = ArrV(1, (3,), cells={(i,): triple[i] for i in range(3)})
+        for req in requests:
+            for rev in (False, True):
+                n += 1
+                label = f"{fname}, request {req} ({'last' if rev else 'first'}-ready order)"
+                try:
+                    ev, tl, g, iso, ad, e = fold(ctx, model, req, rev, strain=st)
+                except RaisedV as ex:
+                    ctx.violation(f"degenerate.raises.{fname}.{'-'.join(req)}.{rev}", w, "all requested components are computed", f"raises {ex.exc_name} at {ex.where}",
+                                  f"with {fname}, assembling {req} raises {ex.exc_name}: a task is evaluated before a dependency it shares with a requested component", instance=label)
+                    continue
+                bad = []
+                if sorted(k.name for k in iso.d.keys()) != sorted(req):
+                    bad.append(f"keys {sorted(k.name for k in iso.d.keys())}")
+                for k in iso.d.keys():
+                    for which, d in (("iso", iso), ("ad", ad)):
+                        if not same_expr(canon(d.d[k]), canon(ref_value(k.name, list(triple), which))):
+                            bad.append(f"{k.name}/{which}")
+                ctx.check(not bad, f"{label}: every key gets its reference value", w, expected="values of the recursive reference on the same strain field", found=str(bad[:5]) if bad else "as required",
+                          explanation="with two equal axial strains a requested component is missing or is taken from a task with other strain fractions", key=f"degenerate.{fname}.{'-'.join(req)}.{rev}")
+    ctx.floor("degenerate-strain request scenarios", n, 12)
+
+
 def r_assembly(ctx, model):
     w = model.where(f"{TASKLIST}.resolve")
     seen = {}
@@ -449,4 +484,5 @@ RULES = [
     ("R04.1-5,7", "completeness, request independence, graph orientation/order, reference values (8 request sets x 2 topological orders)", r_assembly),
     ("R04.8", "task de-duplication no looser than numpy's default comparison: near-degenerate strain partitions stay distinct tasks", r_dedup),
     ("R04.6", "isotropic limit and axis-permutation covariance on the folded expressions", r_isotropy),
+    ("R04.9", "two equal axial strains: shared (de-duplicated) tasks are still evaluated before their dependants, in small requests with the shear key first", r_degenerate),
 ]
